@@ -316,7 +316,11 @@ func ext۰reflect۰Value۰MapKeys(fr *frame, args []value) value {
 	tKey := rV2T(args[0]).t.Underlying().(*types.Map).Key()
 	switch v := rV2V(args[0]).(type) {
 	case *omap:
-		for _, e := range fr.i.mapOrder(fr, v) {
+		site := fr
+		if fr.caller != nil {
+			site = fr.caller // the range site is the caller of MapKeys
+		}
+		for _, e := range fr.i.mapOrder(site, v) {
 			keys = append(keys, makeReflectValue(tKey, e.key))
 		}
 	default:
